@@ -61,6 +61,13 @@ def opsCtl (st : Option (Cfg × St)) (args : List String) : Option (Option (Cfg 
   | ["astep", dt, rs, ri], some (C, s) => do
       let s' := stepA C s (← parseRat? dt) { sensor := ← parseBits? rs, iswitch := ← parseBits? ri }
       some (some (C, s'), showSt C s')
+  | ["reset"], some (C, _) => some (some (C, St.init C), showSt C (St.init C))
+  | ["secout", k], some (C, s) => do
+      let s' := secDisconnect C s (← k.toNat?)
+      some (some (C, s'), showSt C s')
+  | ["putback", n, k], some (C, s) => do
+      let s' := putBack C (← n.toNat?) (← k.toNat?) s
+      some (some (C, s'), showSt C s')
   | _, _ => none
 
 end Driver
